@@ -852,7 +852,8 @@ def gen_snapshots(rng, tier):
         dirn = None
         for o in base_seq:
             if rng.random() < 0.25:
-                nm = "e%d" % len(ops)
+                # graph snapshots and elevation snapshots have separate key lists: sharing a name is legal
+                nm = rng.choice(["s0", "s1"]) if rng.random() < 0.4 else "e%d" % len(ops)
                 ops.append("snap:%s:e" % nm)
             if o == "mst":
                 o = "mst:%s:%s" % (rng.choice("kb"), rng.choice(["basic", "carve"]))
@@ -861,7 +862,9 @@ def gen_snapshots(rng, tier):
             ops.append(o)
             dirn = "single" if (o.startswith("single") or o.startswith("mst")) else ("multi" if o.startswith("multi") else dirn)
             if dirn and rng.random() < 0.7:
-                nm = "g%d" % len(ops)
+                nm = rng.choice(["s0", "s1"]) if rng.random() < 0.4 else "g%d" % len(ops)
+                if any(nm == x for x, _ in snaps):
+                    nm = "g%d" % len(ops)
                 fl = rng.choice(["g", "g", "ge"])
                 ops.append("snap:%s:%s" % (nm, fl))
                 snaps.append((nm, dirn == "single"))
